@@ -629,6 +629,22 @@ class Engine:
                                                        if isinstance(st.get((frame, l)), tuple) and st[(frame, l)][0] == "phi")))
 
     # ------------------------------------------------------------ calls
+    def from_impl(self, substs):
+        """the workspace's `impl From<A> for B` for the substitution list '[A, B]' of a blanket Into::into call (lifetimes ignored)"""
+        norm = lambda x: re.sub(r"'\{?\w+\}? ?", "", x).replace(" ", "").replace("rln::", "").replace("zerokit_utils::", "")
+        tys = [norm(x) for x in split_substs(substs) if not x.strip().startswith("'")]
+        if len(tys) != 2:
+            return None
+        a, b = tys
+        hits = []
+        for path, it in self.fb.items.items():
+            if not path.endswith(">::from") or "convert::From<" not in path:
+                continue
+            q = norm(path)
+            if ("std::convert::From<%s>for%s>::from" % (a, b)) in q or ("<%sasstd::convert::From<%s>>::from" % (b, a)) in q:
+                hits.append(it)
+        return hits[0] if len(hits) == 1 else None
+
     def should_inline(self, callee_item, depth):
         if callee_item is None:
             return False
@@ -707,6 +723,13 @@ class Engine:
                     callee_item = ci
                     raw_args = [cv] + rest
                     force_inline = True
+        if callee_item is None and re.search(r"^<T as std::convert::Into<U>>::into@", name) and len(raw_args) == 1:
+            # the blanket `impl<T, U: From<T>> Into<U> for T`: `x.into()` is `U::from(x)`; follow it to the workspace's From impl
+            fi = self.from_impl(name.split("@", 1)[1])
+            if fi is not None:
+                callee_item = fi
+                name = fi.path
+                t = dict(t, resolved=fi.path, callee=fi.path)
         if callee_item is not None and callee_item.path != item.path and (force_inline or self.should_inline(callee_item, depth)):
             if target is None:
                 self.npaths += 1
